@@ -488,14 +488,54 @@ func ruleDrainAll(p *Prog, r *Result) {
 		return
 	}
 	nPush, nPop := 0, 0
+	// helper methods that push exactly one row on every path (and count it): a call to one is a push site
+	pushHelper := map[*ssa.Function]bool{}
+	helperCounts := map[*ssa.Function]bool{}
 	for _, fn := range p.methodsOf(ot) {
+		if len(naturalLoops(fn)) > 0 {
+			continue
+		}
+		allInstrs(fn, func(in ssa.Instruction) {
+			c, ok := in.(*ssa.Call)
+			if !ok || p.calleeName(&c.Call) != "container/heap.Push" {
+				return
+			}
+			all := true
+			for _, b := range fn.Blocks {
+				if retOf(b) != nil && !(c.Block() == b || c.Block().Dominates(b)) {
+					all = false
+				}
+			}
+			if all {
+				pushHelper[fn] = true
+				allInstrs(fn, func(x ssa.Instruction) {
+					if st, ok := x.(*ssa.Store); ok {
+						if o, f, d, ok := fieldStoreAdd(st); ok && o == ot && f == "total" {
+							if cv, isC := constInt(d); isC && cv == 1 && (st.Block() == c.Block() || c.Block().Dominates(st.Block())) {
+								helperCounts[fn] = true
+							}
+						}
+					}
+				})
+			}
+		})
+	}
+	for _, fn := range p.methodsOf(ot) {
+		if pushHelper[fn] {
+			continue
+		}
 		loops := naturalLoops(fn)
 		allInstrs(fn, func(in ssa.Instruction) {
 			c, ok := in.(*ssa.Call)
 			if !ok {
 				return
 			}
-			switch p.calleeName(&c.Call) {
+			name := p.calleeName(&c.Call)
+			viaHelper := false
+			if g := c.Call.StaticCallee(); g != nil && pushHelper[g] {
+				name, viaHelper = "container/heap.Push", true
+			}
+			switch name {
 			case "container/heap.Push":
 				nPush++
 				key := p.FName(fn) + "|push"
@@ -516,7 +556,7 @@ func ruleDrainAll(p *Prog, r *Result) {
 					}
 				}
 				// total++ in the same block
-				inc := false
+				inc := viaHelper && helperCounts[c.Call.StaticCallee()]
 				for _, x := range c.Block().Instrs {
 					if st, ok := x.(*ssa.Store); ok {
 						if o, f, d, ok := fieldStoreAdd(st); ok && o == ot && f == "total" {
